@@ -98,9 +98,19 @@ func subMs(r *rand.Rand) time.Duration {
 
 // MinterConfig is a generated emission configuration plus its model.
 type MinterConfig struct {
-	Params   minttypes.Params
+	Params   minttypes.Params // Minters listed in a shuffled order (validation sorts by sequence id)
+	Sorted   []*minttypes.Minter // the same minters in ascending sequence-id order
 	Schedule model.Schedule
 	Desc     []string
+}
+
+// MintDenom draws the mint denomination: mostly the chain's main denom, sometimes a
+// denomination that has no supply at genesis.
+func MintDenom(r *rand.Rand) string {
+	if r.Intn(10) < 3 {
+		return "umint"
+	}
+	return "uc4e"
 }
 
 func anyOf(v minttypes.MinterConfigI) *codectypes.Any {
@@ -189,6 +199,14 @@ func Minters(r *rand.Rand, denom string, maxExp int) MinterConfig {
 		if end != nil {
 			cur = *end
 		}
+	}
+	mc.Sorted = append([]*minttypes.Minter{}, mc.Params.Minters...)
+	if r.Intn(2) == 0 {
+		// any listing order is valid: validation sorts by sequence id
+		sh := append([]*minttypes.Minter{}, mc.Sorted...)
+		r.Shuffle(len(sh), func(i, j int) { sh[i], sh[j] = sh[j], sh[i] })
+		mc.Params.Minters = sh
+		mc.Desc = append(mc.Desc[:len(mc.Desc):len(mc.Desc)])
 	}
 	return mc
 }
